@@ -17,7 +17,7 @@ SCALARS = [
     ('i8', 'serialize_i8', 'i8'), ('i16', 'serialize_i16', 'i16'), ('i32', 'serialize_i32', 'i32'), ('i64', 'serialize_i64', 'i64'),
     ('usize', 'serialize_u64', 'u64'), ('isize', 'serialize_i64', 'i64'),
     ('bool', 'serialize_bool', 'bool'), ('char', 'serialize_char', 'char'), ('f32', 'serialize_f32', 'f32'), ('f64', 'serialize_f64', 'f64'),
-    ('str', 'serialize_str', None), ("&'a str", None, 'str'), ('std::string::String', 'serialize_str', 'string'),
+    ('str', 'serialize_str', None), ("&'_ str", None, 'str'), ('std::string::String', 'serialize_str', 'string'),
     ('()', 'serialize_unit', 'unit'),
 ]
 SEQS = ['std::vec::Vec<T>', '[T]', 'std::collections::VecDeque<T>', 'std::collections::BTreeSet<T>', 'std::collections::LinkedList<T>', 'std::collections::BinaryHeap<T>']
@@ -203,7 +203,7 @@ def i_dec_scalar(ctx, prog, dec):
     ov_n = l2.decoder_overrides()
     n = 0
     canon_item = {'u8': 'int:u8', 'u16': 'int:u16', 'u32': 'int:u32', 'u64': 'int:u64', 'i8': 'int:i8', 'i16': 'int:i16', 'i32': 'int:i32', 'i64': 'int:i64',
-                  'usize': 'int:u64', 'isize': 'int:i64', 'bool': 'bool', 'char': 'char', 'f32': 'f32', 'f64': 'f64', "&'a str": 'str', 'std::string::String': 'str', '()': 'array0'}
+                  'usize': 'int:u64', 'isize': 'int:i64', 'bool': 'bool', 'char': 'char', 'f32': 'f32', 'f64': 'f64', "&'_ str": 'str', 'std::string::String': 'str', '()': 'array0'}
     for ty, _sm, dm in SCALARS:
         if dm is None:
             continue
